@@ -240,3 +240,35 @@ def rule_attr_hdftype(ctx):
             ctx.holds("ATTRTYPE", key, f.where(), "%d NC_new_attr site(s): HDFtype stored on every non-failing path" % len(a.sites), nontrivial=True)
     ctx.floor("ATTRTYPE", 3, n, "(NC_new_attr call sites in the SD interface)")
     return n
+
+
+def rule_attr_count_kept(ctx):
+    """ATTRCOUNT (C10): an attribute is stored as a Vdata of `n` records of `order` values; its count is n * order (the writer
+    uses order = count for DFNT_CHAR and n = count for everything else).  In hdf_read_attrs the record count that VSinquire
+    returned must therefore reach NC_new_attr: it may be scaled, never replaced by a value that does not depend on it."""
+    from .facts import base_var
+    prog = ctx.prog
+    f = prog.func("hdf_read_attrs")
+    if f is None:
+        ctx.unrecognised("ATTRCOUNT", "ATTRCOUNT:hdf_read_attrs", "-", "hdf_read_attrs not found")
+        return 0
+    nrec = None
+    for _b, _i, _s, c in f.calls():
+        if c[1] == "VSinquire" and len(c[3]) >= 2 and kind(strip(c[3][1])) == "addr":
+            nrec = base_var(c[3][1])
+    sink = [c for _b, _i, _s, c in f.calls() if c[1] in ("NC_new_attr", "H4_NC_new_attr") and len(c[3]) >= 3]
+    if nrec is None or not sink:
+        ctx.unrecognised("ATTRCOUNT", "ATTRCOUNT:hdf_read_attrs", f.where(), "VSinquire(&count) / NC_new_attr(.., count, ..) not found")
+        return 0
+    key = "ATTRCOUNT:hdf_read_attrs:%s" % nrec
+    if not any(x[0] == "var" and x[1] == nrec for x in walk(sink[0][3][2], True)):
+        ctx.violated("ATTRCOUNT", key, f.where(sink[0][5]), "NC_new_attr is given `%s` as the attribute's count, which is not the record count VSinquire returned (`%s`)" % (render(sink[0][3][2])[:40], nrec))
+        return 1
+    kills = [x for _b, _i, _s, x in f.nodes(True) if x[0] == "asg" and x[1] == "=" and kind(strip(x[2])) == "var" and strip(x[2])[1] == nrec
+             and not any(y[0] == "var" and y[1] == nrec for y in walk(x[3], True))]
+    if kills:
+        ctx.violated("ATTRCOUNT", key, f.where(kills[0][4]), "`%s` discards the record count of the attribute Vdata: an attribute stored as several records (every type but DFNT_CHAR) comes back "
+                     "with the field order as its count" % render(kills[0])[:60])
+    else:
+        ctx.holds("ATTRCOUNT", key, f.where(sink[0][5]), "the record count `%s` reaches NC_new_attr (scaled by the field order for character types)" % nrec, nontrivial=True)
+    return 1
